@@ -69,9 +69,9 @@ def free_ports(n, lo=21900, hi=21999):
 
 
 class Server:
-    def __init__(self, ck, binp, runtime_config=True, pprof=True):
+    def __init__(self, ck, binp, runtime_config=True, pprof=True, product=None, name="srv"):
         self.ck = ck
-        self.dir = os.path.join(ck.work, "srv")
+        self.dir = os.path.join(ck.work, name)
         os.makedirs(self.dir, exist_ok=True)
         src = open(os.path.join(ck.repo, "config", "openGemini.singlenode.conf")).read()
         old = ["8092", "8088", "8091", "8086", "8087", "8400", "8401", "8305"]
@@ -85,6 +85,8 @@ class Server:
                                       "  flux-enabled = false\n" % (SECRET, "true" if pprof else "false"))
         src = src.replace("flight-enabled = true", "flight-enabled = false")
         src = src.replace("store-enabled = true", "store-enabled = false").replace('pushers = "http"', 'pushers = ""')
+        if product:
+            src = src.replace("[common]\n", "[common]\n  product-type = \"%s\"\n" % product)
         if runtime_config:
             src = src.replace("[runtime-config]\n  enabled = false", "[runtime-config]\n  enabled = true")
         open(os.path.join(self.dir, "conf.toml"), "w").write(src)
@@ -169,7 +171,7 @@ def result_ok(status, body):
     return True
 
 
-def setup(srv):
+def setup(srv, data=True):
     """create the administrator (first user, bootstrap exception), databases, users, grants, marker data"""
     st, b = srv.req("POST", "/query", {"q": "CREATE USER %s WITH PASSWORD '%s' WITH ALL PRIVILEGES" % ADMIN})
     if not result_ok(st, b):
@@ -193,6 +195,8 @@ def setup(srv):
             st, b = srv.admin_q("GRANT %s ON %s TO %s" % (p, db, name))
             if not result_ok(st, b):
                 return "setup grant %s: %s %s" % (name, st, b[:200])
+    if not data:
+        return None
     for db in ("db1", "db2"):
         st, b = srv.req("POST", "/write", {"db": db}, basic_header(*ADMIN),
                         "c19metric,job=%s value=424242.5\nc19w,case=seed v=1\nc19dropmst,case=seed v=1\n" % MARK[db])
